@@ -146,13 +146,20 @@ fn gcm_splits(splits: &[Value]) -> Value {
     for (si, s) in splits.iter().enumerate() {
         let calls: Vec<usize> = s["calls"].as_array().unwrap().iter().map(|x| x.as_u64().unwrap() as usize).collect();
         let total: usize = calls.iter().sum();
-        for aad_len in [0usize, 1, 16, 17] {
+        // VALUES: besides random material, all-zero / all-0xFF messages, keys and nonces (carries, degenerate GHASH inputs)
+        for (vi, aad_len) in [0usize, 1, 16, 17, 0, 16, 1].into_iter().enumerate() {
             n += 1;
             let seed = 77 + si as u64;
-            let msg = crate::cells::content(seed, 1, total, crate::cells::Entropy::High);
+            let mut msg = crate::cells::content(seed, 1, total, crate::cells::Entropy::High);
             let aad = crate::cells::content(seed, 2, aad_len, crate::cells::Entropy::High);
-            let key: [u8; 32] = crate::cells::content(seed, 3, 32, crate::cells::Entropy::High).try_into().unwrap();
-            let nonce: [u8; 12] = crate::cells::content(seed, 4, 12, crate::cells::Entropy::High).try_into().unwrap();
+            let mut key: [u8; 32] = crate::cells::content(seed, 3, 32, crate::cells::Entropy::High).try_into().unwrap();
+            let mut nonce: [u8; 12] = crate::cells::content(seed, 4, 12, crate::cells::Entropy::High).try_into().unwrap();
+            match vi {
+                4 => { msg.iter_mut().for_each(|b| *b = 0x00); nonce = [0xff; 12]; }
+                5 => { msg.iter_mut().for_each(|b| *b = 0xff); key = [0x00; 32]; }
+                6 => { key = [0xff; 32]; nonce = [0x00; 12]; }
+                _ => {}
+            }
             // reference
             let cipher = aes_gcm::Aes256Gcm::new_from_slice(&key).unwrap();
             let mut want = msg.clone();
@@ -171,6 +178,17 @@ fn gcm_splits(splits: &[Value]) -> Value {
                 let mut d = AesGcm256::new(&key, &nonce, &aad).unwrap();
                 let mut back = buf.clone();
                 let dtag = d.decrypt(&mut back);
+                // the unauthenticated decryption, in the same pieces as the encryption
+                let mut u = AesGcm256::new(&key, &nonce, &aad).unwrap();
+                let mut back2 = buf.clone();
+                let mut off = 0;
+                for k in &calls {
+                    u.decrypt_unauthenticated(&mut back2[off..off + k]);
+                    off += k;
+                }
+                if back2 != back {
+                    back = back2; // reported as a decryption mismatch below
+                }
                 (buf, tag.to_vec(), back, dtag.to_vec())
             });
             match r {
